@@ -1,4 +1,5 @@
 import Convergen.Model.Basic
+import Convergen.Model.Text
 /-!
 # The `go/types` view of a program (oracle facts) and `pkg/util/{types,import}.go`
 
@@ -175,7 +176,7 @@ end Env
 /-- `util.NewImportNames`: map path → name; `_` imports are renamed to the last path element
 unless another entry already carries that name.  The Go map is kept as an association list in
 first-insertion order with overwrite semantics. -/
-def lastPathElem (p : String) : String := (p.splitOn "/").getLast!
+def lastPathElem (p : String) : String := String.ofList (takeWhileL (· != '/') p.toList.reverse).reverse
 
 def mapSet (m : List (String × String)) (k v : String) : List (String × String) :=
   if m.any (·.1 == k) then m.map (fun e => if e.1 == k then (k, v) else e) else m ++ [(k, v)]
